@@ -7,7 +7,9 @@ from . import common as C
 STRS = ['', ' ', 'a', 'A', '1', '0', '-1', '+1', '01', '1.5', '1.', '.5', '1e5', '#FFFFFF', '#ffffff', '#FFFFFF00', '#FFF', 'a, b', 'a,b', ',',
         '2000-01-01', '2000-13-01', '2000-01-01Z', '2000-01-01+01:00', '1, 2', '1,2', '0, 1', '  G ', ' yes', 'yes ', 'a  b', 'a\tb', 'a\nb', 'acc', 'accX',
         'coda', 'codaX', 'lyricsX', 'pictX', 'segno', 'wiggleX', 'guitarVibratoStroke', 'en', 'en-US', 'x-abc', '1abc', 'abc', 'a:b', ':a', 'ä', 'normal',
-        '1 2', '1,\xa02', '1,\u20032', '1,\x0b2', 'a\xa0b', '\xa01', '1\xa0', '1,\x0c 2', 'a\u2028b', 'Arial', 'Arial, Helvetica', 'xx-large', 'P1', 'id-1', '1id', 'accidentalSharp', 'noteheadBlack']
+        '1 2', '1,\xa02', '1,\u20032', '1,\x0b2', 'a\xa0b', '\xa01', '1\xa0', '1,\x0c 2', 'a\u2028b', 'Arial', 'Arial, Helvetica', 'xx-large', 'P1', 'id-1', '1id', 'accidentalSharp', 'noteheadBlack',
+        # the corners of the date lexical space: more than four year digits, years BCE, the year 0000, days the month does not have, short fields
+        '10000-01-01', '12021-06-15Z', '-0044-03-15', '-0001-12-31', '0000-01-01', '2021-02-30', '2000-02-29', '99999-12-31+01:00', '2000-00-10', '2000-1-1', '-12021-06-15', '2000-01-01-14:00']
 NUMS = ['0', '1', '-1', '2', '3', '4', '6', '7', '8', '9', '10', '16', '17', '99', '100', '101', '127', '128', '129', '180', '181', '-180', '-181', '16384', '16385',
         'True', 'False', '0.0', '0.5', '1.0', '-0.5', '1e-05', '1e16', '1e22', "float('nan')", "float('inf')", "-float('inf')", '100.5', '180.5', '-0.0', '123456789.125',
         'None', '2.5', '99.9', '0.1', '3.0', '1.5', '1', '0.5']
